@@ -280,7 +280,7 @@ struct Harness
         case OP_ERASE: return s + "(idx=" + idx_str(o.a) + ",cnt=" + idx_str(o.b) + (o.c ? ",dtor)" : ")");
         case OP_SETN: return s + "(" + std::to_string(o.a) + (o.b ? ",dtor)" : ")");
         case OP_SETM: case OP_SETZ: return s + "(" + std::to_string(o.a) + ")";
-        case OP_SWAP: return s + "(aux of " + std::to_string(o.a) + " elements)";
+        case OP_SWAP: return s + "(aux of " + std::to_string(o.a) + " elements" + (o.b ? " of size " + std::to_string(o.b) : "") + ")";
         case OP_ACCESS: return "accessors";
         }
         return s;
@@ -612,24 +612,30 @@ struct Harness
 #if defined(SEQ_VEC)
         case OP_SWAP:
         {
-            L.aux = a_vec_new(siz);
+            // o.a elements in the other vector, o.b its element size (0: the same)
+            size_t osiz = o.b ? (size_t)o.b : siz;
+            L.aux = a_vec_new(osiz);
             Model am;
+            g_siz = osiz;
             for (long i = 0; i < o.a; ++i)
             {
                 void *p = a_vec_push_back(L.aux);
                 unsigned char b0 = (unsigned char)(2 << 4 | (14 + i));
-                fill_elem(p, b0, siz);
+                fill_elem(p, b0, osiz);
                 am.push_back(b0);
             }
             a_vec_swap(L.c, L.aux);
-            outcome = "swapped";
+            outcome = o.b ? "swapped-sizes" : "swapped";
             std::swap(m, am);
+            if (L.c->siz_ != osiz || L.aux->siz_ != siz) { ck.fail("swap-size", "the element sizes did not change sides with the contents (" + std::to_string(L.c->siz_) + "/" + std::to_string(L.aux->siz_) + ", expected " + std::to_string(osiz) + "/" + std::to_string(siz) + ")"); return; }
             // the former contents must now be in aux, intact
             Live X;
             X.c = L.aux;
             X.m = am;
             Ck ck2;
+            g_siz = siz;
             if (!check_state(X, ck2)) { ck.fail("swap", "after swap the other vector does not hold this vector's former contents: " + ck2.err); return; }
+            g_siz = osiz;
             break;
         }
 #endif
@@ -884,6 +890,7 @@ struct Harness
         add(OP_SETM, 0); add(OP_SETM, (long)num);
         if (mem < memcap) { add(OP_SETM, (long)mem + 1); }
         add(OP_SWAP, 0); add(OP_SWAP, 2);
+        if (siz2) { long other = (long)(siz == siz0 ? siz2 : siz0); add(OP_SWAP, 0, other); add(OP_SWAP, 2, other); }
 #else
         if (num) { add(OP_SETM, (long)num - 1); }
         add(OP_SETM, (long)num);
